@@ -26,6 +26,11 @@ pub struct Case {
     /// None keeps the default of new_with_timer (64)
     pub rounds0: Option<u8>,
     pub ops: Vec<JOp>,
+    /// if set: before the history the pool is preset (cfg(rngs_verif) hook, same value in the
+    /// model) such that the FIRST collection returns exactly this value — structured results
+    /// (zero, a zero half, all ones, a single bit) cannot be reached by timer scripts alone
+    #[serde(default)]
+    pub first_result: Option<u64>,
 }
 
 pub const BUDGET: usize = 3_000_000;
@@ -48,6 +53,15 @@ pub fn check(c: &Case) -> CheckResult {
     let mut m = Model::new(script);
     if let Some(r) = c.rounds0 {
         m.set_rounds(r);
+    }
+    let mut targeted = false;
+    if let Some(want) = c.first_result {
+        if let Some(p0) = crate::refmodel::jitter::pool_for_result(&m.script, 0, m.rounds, want, BUDGET) {
+            if g.jitter().unwrap().set_pool(p0) {
+                m.pool = p0;
+                targeted = true;
+            }
+        }
     }
     let mut stats_between_u32 = false;
     let mut last_was_u32 = false;
@@ -137,7 +151,8 @@ pub fn check(c: &Case) -> CheckResult {
         }
         last_was_u32 = matches!(op, JOp::U32);
     }
-    Ok(CaseInfo::new(!c.ops.is_empty() && (m.stuck_seen > 0 || stats_between_u32 || rounds_not_64))
+    Ok(CaseInfo::new(!c.ops.is_empty() && (m.stuck_seen > 0 || stats_between_u32 || rounds_not_64 || targeted))
+        .class_if(targeted, "first-result-targeted")
         .class_if(m.stuck_seen > 0, "stuck-measurement-repeated")
         .class_if(stats_between_u32, "timer_stats-between-u32")
         .class_if(c.prog.hostile(), "hostile-deltas")
@@ -151,10 +166,30 @@ pub fn check(c: &Case) -> CheckResult {
         }))
 }
 
+/// structured 64-bit results: zero, a zero half, all ones, a single bit, equal halves
+pub fn structured_value() -> BoxedStrategy<u64> {
+    prop_oneof![
+        3 => Just(0u64),
+        4 => any::<u32>().prop_map(|v| v as u64),
+        3 => any::<u32>().prop_map(|v| (v as u64) << 32),
+        1 => Just(u64::MAX),
+        2 => (0u32..64).prop_map(|k| 1u64 << k),
+        1 => any::<u32>().prop_map(|v| (v as u64) << 32 | v as u64),
+    ]
+    .boxed()
+}
+
 pub fn strategy(max_ops: usize) -> BoxedStrategy<Case> {
     let ops = proptest::collection::vec(prop_oneof![30 => jop(40), 1 => Just(JOp::TestTimer), 2 => Just(JOp::Clone)], 0..=max_ops);
-    (gens::timer_prog(true, 14), proptest::option::weighted(0.85, gens::jitter_rounds()), ops)
-        .prop_map(|(prog, rounds0, ops)| Case { prog, rounds0, ops })
+    (gens::timer_prog(true, 14), proptest::option::weighted(0.85, gens::jitter_rounds()), ops, proptest::option::weighted(0.25, structured_value()))
+        .prop_map(|(prog, rounds0, mut ops, first_result)| {
+            if first_result.is_some() {
+                // the targeted collection is the first operation: start with output calls
+                ops.insert(0, JOp::U32);
+                ops.insert(1, JOp::U32);
+            }
+            Case { prog, rounds0, ops, first_result }
+        })
         .boxed()
 }
 
@@ -171,7 +206,7 @@ pub fn def(ctx: &Ctx) -> PropDef {
     }
     PropDef {
         id: "C12",
-        rule: "cases = timer delta program (segments of small jitter, equal deltas = first difference 0, arithmetic progressions = second difference 0, zero deltas, literal hostile deltas: within +-3 of +-2^31 and 2^32, multiples of 2^32, backwards steps, arbitrary u64; start values near 0, 2^32 and u64::MAX; after the script a strictly increasing jittering tail) x initial rounds (default 64 or 1..=255) x history of next_u32 / next_u64 / fill_bytes(n) / timer_stats(bool) / set_rounds(r) / rarely test_timer; after every operation the returned value AND the cumulative number of timer readings must equal those of the spec-level Jitterentropy 2.1.0 model (feedback-form LFSR, wrapping 32-bit stuck test, rotate by 7, one stir) run on the same readings. Non-trivial = the model saw >= 1 stuck (repeated) measurement, or a timer_stats between two next_u32, or rounds != 64; distinct by hash of (program, history).".into(),
+        rule: "cases = timer delta program (segments of small jitter, equal deltas = first difference 0, arithmetic progressions = second difference 0, zero deltas, literal hostile deltas: within +-3 of +-2^31 and 2^32, multiples of 2^32, backwards steps, arbitrary u64; start values near 0, 2^32 and u64::MAX; after the script a strictly increasing jittering tail) x initial rounds (default 64 or 1..=255) x optionally a preset pool (hook) chosen by inverting the model's affine collection map so that the first collected value is structured (0, a zero half, all ones, a single bit) x history of next_u32 / next_u64 / fill_bytes(n) / timer_stats(bool) / set_rounds(r) / rarely test_timer; after every operation the returned value AND the cumulative number of timer readings must equal those of the spec-level Jitterentropy 2.1.0 model (feedback-form LFSR, wrapping 32-bit stuck test, rotate by 7, one stir) run on the same readings. Non-trivial = the model saw >= 1 stuck (repeated) measurement, or a timer_stats between two next_u32, or rounds != 64; distinct by hash of (program, history).".into(),
         explanation: None,
         assumptions: vec!["refmodel::jitter is written from the crate documentation and the property text (validated at start-up against the independent Python model incl. hostile deltas)".into()],
         subs,
